@@ -223,7 +223,7 @@ package v2
 // keys keep their binding. Folding this step over the entries in file order gives
 // last-writer-wins (the induction over the history is the meta-level part of the argument).
 //@ func (*FileReader).LoadIndex$1(entry) (cont)
-//@   property C01
+//@   property C01 C29
 //@   nopanic
 //@   requires[index_made] index != nil
 //@   modifies mapof(index), deref(swampName_ptr)
@@ -232,6 +232,8 @@ package v2
 //@   ensures[upsert_binds_payload] (entry.Operation == OpInsert || entry.Operation == OpUpdate) ==> has(index, entry.Key) && len(index[entry.Key]) == len(entry.Data) && mapsameexcept(index, entry.Key)
 //@   ensures[upsert_copies_bytes] (entry.Operation == OpInsert || entry.Operation == OpUpdate) ==> forall i in 0..len(entry.Data): index[entry.Key][i] == entry.Data[i]
 //@   ensures[copy_is_private] (entry.Operation == OpInsert || entry.Operation == OpUpdate) && len(entry.Data) > 0 ==> fresh(index[entry.Key])
+//@   ensures[first_metadata_entry_names_the_swamp] entry.Operation == OpMetadata && old(len(deref(swampName_ptr))) == 0 && entry.Key == MetadataEntryKey && len(entry.Data) > 0 ==> len(deref(swampName_ptr)) == len(entry.Data) && forall i in 0..len(entry.Data): deref(swampName_ptr)[i] == entry.Data[i]
+//@   ensures[name_otherwise_kept] !(entry.Operation == OpMetadata && old(len(deref(swampName_ptr))) == 0 && entry.Key == MetadataEntryKey && len(entry.Data) > 0) ==> deref(swampName_ptr) == old(deref(swampName_ptr))
 //@   ensures[other_operations_ignored] entry.Operation != OpDelete && entry.Operation != OpInsert && entry.Operation != OpUpdate ==> mapsame(index)
 
 // ---------------------------------------------------------------------------------------
@@ -265,7 +267,8 @@ package v2
 //@   property C29 C04 C03
 //@   nopanic
 //@   modifies ghost("stat_file")
-//@   ensures[reader_ready] err == nil ==> fr != nil && fresh(fr) && fr.file != nil
+//@   ensures[reader_ready] err == nil ==> fr != nil && fresh(fr) && fr.file != nil && fr.header != nil
+//@   ensures[complete_file_opens] len(filePath) > 0 && isnil(lastret("Open", 1)) && calls("FileHeader.Deserialize") == old(calls("FileHeader.Deserialize")) + 1 && isnil(lastret("FileHeader.Deserialize")) && flen(lastret("Open")) >= 64 + fbyte(lastret("Open"), 44) + 256 * fbyte(lastret("Open"), 45) ==> err == nil
 //@   ensures[v3_name_is_the_stored_bytes] err == nil && fr.header.Version == 3 ==> len(fr.swampName) == fr.header.NameLength && forall i in 0..len(fr.swampName): fr.swampName[i] == fbyte(fr.file, 64 + i)
 //@   ensures[v3_name_length_field] err == nil && fr.header.Version == 3 ==> fr.header.NameLength == fbyte(fr.file, 44) + 256 * fbyte(fr.file, 45)
 //@   ensures[positioned_at_data] err == nil ==> fpos(fr.file) == 64 + ite(fr.header.Version == 3, fr.header.NameLength, 0)
@@ -278,7 +281,7 @@ package v2
 //@   nopanic
 //@   requires[open] fr.file != nil
 //@   allocbound max(flen(fr.file), 16)
-//@   modifies *
+//@   modifies filepos(fr.file), ghost("stat_file")
 //@   ensures[torn_header_is_end_of_file] isnil(lastret("File.Seek", 1)) && old(flen(fr.file)) - old(fpos(fr.file)) < 16 ==> err == io.EOF
 //@   ensures[torn_body_is_end_of_file] isnil(lastret("File.Seek", 1)) && isnil(lastret("File.Stat", 1)) && old(flen(fr.file)) - old(fpos(fr.file)) >= 16 && old(flen(fr.file)) - old(fpos(fr.file)) - 16 < old(le32f(fr.file, fpos(fr.file))) ==> err == io.EOF
 //@   ensures[accepted_block_passed_checksum] err == nil ==> blk != nil && calls("ParseBlock") == old(calls("ParseBlock")) + 1
@@ -291,10 +294,10 @@ package v2
 //@   property C04 C01
 //@   nopanic
 //@   requires[header] header != nil
-//@   modifies *
+//@   loop 0 invariant[only_fresh_memory_written] entrymem()
 //@   loop 0 invariant[progress] 0 <= offset && offset <= len(uncompressed) && len(entries) == i && i <= header.EntryCount && (!isnil(entries) ==> fresh(entries))
 //@   ensures[checksum_verified] err == nil ==> U_crc32(compressedData) == old(header.Checksum)
-//@   ensures[count] err == nil ==> blk != nil && len(blk.Entries) == old(header.EntryCount)
+//@   ensures[count] err == nil ==> blk != nil && fresh(blk) && len(blk.Entries) == old(header.EntryCount)
 
 // ---------------------------------------------------------------------------------------
 // Compaction (property C03). The rewritten file is built in <file>.compact and renamed over the
@@ -313,7 +316,7 @@ package v2
 //@   ensures[failed] err != nil ==> fw == nil
 
 //@ func (*FileWriter).Close(fw) (result)
-//@   property C03 C02
+//@   property C03 C02 C25
 //@   overflow: assumed
 //@   rely[no_earlier_io_fault] fpos(fw.file) == flen(fw.file) && flen(fw.file) >= 64 + fw.header.NameLength
 //@   modifies fw.buffer.entries, fw.buffer.currentSize, fw.closed, fw.blockCount, fw.entryCount, all(fw.header), file(fw.file)
@@ -359,3 +362,31 @@ package v2
 //@   loop 0 invariant[index_untouched] mapsame(index)
 //@   ensures[at_most_one_rename] calls("Rename") <= old(calls("Rename")) + 1
 //@   ensures[reports_compacted_only_after_rename] res != nil && res.Compacted ==> calls("Rename") == old(calls("Rename")) + 1 && isnil(lastret("Rename"))
+
+// ReadAllEntries (properties C02, C04, C01): replay starts at the data offset of the header, hands
+// every decoded entry to the callback, and stops without error only at end of file (readNextBlock
+// reported io.EOF -- which includes a torn tail) or when the callback asked to stop; any other
+// reader error is returned. In particular the loop is NOT bounded by the header's block count, which
+// is stale after a crash between a block append and the header rewrite.
+//@ func (*FileReader).ReadAllEntries(fr, callback) (n, result)
+//@   property C02 C04 C01
+//@   nopanic
+//@   overflow: assumed
+//@   requires[open] fr.file != nil && fr.header != nil
+//@   modifies filepos(fr.file), ghost("stat_file")
+//@   loop 0 invariant[reader_untouched] fr.file == old(fr.file) && fr.file != nil
+//@   before FileReader.readNextBlock [starts_at_data_offset] calls("FileReader.readNextBlock") == old(calls("FileReader.readNextBlock")) ==> calls("File.Seek") == old(calls("File.Seek")) + 1 && calledwith("File.Seek", 1, ite(old(fr.header.Version) == 3, 64 + old(fr.header.NameLength), 64)) && calledwith("File.Seek", 2, 0)
+//@   ensures[stops_only_at_end_of_file_or_on_request] result == nil ==> (calls("Is") > old(calls("Is")) && lastretb("Is") && calledwith("Is", 1, io.EOF)) || (calls("callback") > old(calls("callback")) && !lastretb("callback"))
+//@   ensures[reader_errors_are_reported] calls("Is") > old(calls("Is")) && !lastretb("Is") ==> result != nil
+
+// ReadSwampName (property C29): the fast lookup returns, for a V3 file, exactly the name NewFileReader
+// read from the header area (see NewFileReader's contract: the NameLength bytes after the header);
+// for a legacy V2 file it returns the name produced by the full replay (LoadIndex: the first
+// metadata entry with the reserved key, see LoadIndex$1), and every reader error is reported.
+//@ func ReadSwampName(filePath) (name, err)
+//@   property C29
+//@   nopanic
+//@   modifies *
+//@   ensures[open_failure_reported] !isnil(lastret("NewFileReader", 1)) ==> err != nil
+//@   ensures[v3_name_is_the_header_area_name] isnil(lastret("NewFileReader", 1)) && lastret("NewFileReader").header.Version == 3 ==> err == nil && name == lastret("NewFileReader").swampName
+//@   ensures[v2_name_is_the_replayed_name] isnil(lastret("NewFileReader", 1)) && lastret("NewFileReader").header.Version != 3 ==> calls("FileReader.LoadIndex") == old(calls("FileReader.LoadIndex")) + 1 && (err == nil ==> name == lastret("FileReader.LoadIndex", 1)) && (!isnil(lastret("FileReader.LoadIndex", 2)) ==> err != nil)
